@@ -42,7 +42,10 @@ function F(t,P,nj){
   var s=D(t), fi=[], i;
   for (var k in t) fi.push(k);
   s+="|k="+Object.keys(t).sort().join()+"|f="+fi.sort().join()+"|j="+(nj?"cyc":J(t))+"|s="+(Array.isArray(t)?D([...t]):D({...t}))+"|p=";
-  for (i=0;i<P.length;i++) s+=((P[i] in t)?1:0)+""+(Object.prototype.hasOwnProperty.call(t,P[i])?1:0);
+  for (i=0;i<P.length;i++) {
+    s+=((P[i] in t)?1:0)+""+(Object.prototype.hasOwnProperty.call(t,P[i])?1:0);
+    if (typeof P[i]==="number") s+=((String(P[i]) in t)?1:0)+""+(Object.prototype.hasOwnProperty.call(t,String(P[i]))?1:0);
+  }
   if (Array.isArray(t)) s+="|l="+t.length;
   return s;
 }
